@@ -170,8 +170,9 @@ SongF == {"solo", "td", "cd", "nt"}                \* options "of the current se
 \* everything a call that reports failure must leave alone
 RejF == PersistF \cup HookF \cup {"nco", "ho"}
 
-\* while the VGM dumper is the emulator the loop-hook slots of the sequencer belong to it
-DumperF(o) == IF o.emu = Dumper THEN {"ils", "ile"} ELSE {}
+\* while the VGM dumper is the emulator the loop-hook slots and "loop hooks only" of the sequencer belong to it
+\* (every chip re-creation, also the one inside a rejected music load, takes them again)
+DumperF(o) == IF o.emu = Dumper THEN {"ils", "ile", "ho"} ELSE {}
 
 \* what a call may change
 Target(ev) ==
@@ -270,6 +271,7 @@ PlayFails(p, o, R) ==
           \cup (IF Fire("raw", 1, any) THEN {"hook-fire:raw"} ELSE {})
           \cup (IF Fire("note", 2, nA + nB > 0) THEN {"hook-fire:note"} ELSE {})
           \cup (IF Fire("dbg", 3, TrackOn(o, 0)) THEN {"hook-fire:dbg"} ELSE {})
-          \cup (IF usr /\ Fire("ls", 4, TRUE) THEN {"hook-fire:ls"} ELSE {})
-          \cup (IF usr /\ Fire("le", 5, TRUE) THEN {"hook-fire:le"} ELSE {})
+          \* loop hooks: must fire when looping is on and the track with the markers plays (loop off: not constrained)
+          \cup (IF usr /\ Fire("ls", 4, R.loop = 1 /\ TrackOn(o, 0)) THEN {"hook-fire:ls"} ELSE {})
+          \cup (IF usr /\ Fire("le", 5, R.loop = 1 /\ TrackOn(o, 0)) THEN {"hook-fire:le"} ELSE {})
 =============================================================================
